@@ -704,7 +704,19 @@ def _schedule_rewrites(
     scheduled_rewrites = []
     transaction_rewrites = collections.defaultdict(list)
     for k, (func, args, kwargs) in enumerate(funcs):
-        for old, new, transaction in map(fill_transaction, func(*args, **kwargs)):
+        try:
+            func_rewrites = list(map(fill_transaction, func(*args, **kwargs)))
+            for old, new, _ in func_rewrites:
+                hash(_Rewrite(old, new or ""))  # Nodes that cannot be unparsed cannot be used
+        except Exception as error:  # pylint: disable=broad-except
+            # One rule that cannot cope with this particular code should not stop the others.
+            # Nothing of what it had come up with so far is used.
+            logger.error(
+                "{func} raised {error}, it is skipped.", func=func.__name__, error=repr(error)
+            )
+            func_rewrites = []
+
+        for old, new, transaction in func_rewrites:
             t = _Transaction(k, transaction, func.__name__)
             transaction_rewrites[t].append(_Rewrite(old, new or ""))
 
